@@ -626,3 +626,100 @@ def builtin_types(R):
             else:
                 ok = type(t) is base
         R.check(f"C09.builtin-types[{spelling}]", T + "::BuiltinTypeFactory", ok, detail=f"`{spelling}` denotes {t!r}")
+
+
+# ---------------------------------------------------------------------------
+# C05 / C04: a value reaches a variable, a target or a caller only if it has the SHAPE of the declared type.  An assignment, an initialiser or a
+# `return` whose value cannot be converted to the declared type (scalar -> vector, vector -> scalar, vectors of different sizes, matrix <-> vector,
+# array <-> scalar, struct <-> anything else) must be rejected: the VM has no such conversion, the value would travel on under a wrong type and the
+# next operator, index or member access fails with a TypeError / IndexError (an internal error in the sense of C05).
+
+_SHAPE_TYPES = {
+    # spelling: (shape, sample input)
+    "int": (("s",), 3), "uint": (("s",), 3), "float": (("s",), 1.5),
+    "int2": (("v", 2), [1, 2]), "float2": (("v", 2), [1.5, 2.5]), "float3": (("v", 3), [1.5, 2.5, 3.5]), "float4": (("v", 4), [1.5, 2.5, 3.5, 4.5]),
+    "float3x3": (("m", 3, 3), [[1.0, 2.0, 3.0], [4.0, 5.0, 6.0], [7.0, 8.0, 9.0]]),
+    "float4x4": (("m", 4, 4), [[1.0, 2.0, 3.0, 4.0], [5.0, 6.0, 7.0, 8.0], [9.0, 10.0, 11.0, 12.0], [13.0, 14.0, 15.0, 16.0]]),
+    "int[3]": (("a", 3), [1, 2, 3]), "S": (("S",), {"a": 1}),
+}
+
+
+def _has_shape(value, shape):
+    num = lambda x: isinstance(x, (int, float)) and not isinstance(x, bool)
+    if shape[0] == "s":
+        return num(value)
+    if shape[0] in "va":
+        return isinstance(value, list) and len(value) == shape[1] and all(num(x) for x in value)
+    if shape[0] == "m":
+        return isinstance(value, list) and len(value) == shape[1] and all(isinstance(r, list) and len(r) == shape[2] and all(num(x) for x in r) for r in value)
+    return isinstance(value, dict) and set(value) == {"a"}
+
+
+_SHAPE_USE = {"s": "return (t + 1);", "v": "return (t + t);", "m": "return (t * 2.0);", "a": "t[0] = (t[1] + 1); return t;", "S": "t.a = (t.a + 1); return t;"}
+
+
+@family("C05.shape-compat", props=["C05"], functions=["nsl.ast::AssignmentExpression.ResolveType", "nsl.passes.ComputeTypes::ComputeTypeVisitor.v_VariableDeclaration",
+                                                           "nsl.passes.ComputeTypes::ComputeTypeVisitor._ProcessExpression", T + "::IsCompatible",
+                                                           "nsl.passes.AddImplicitCasts::AddImplicitCastVisitor._ConvertTo"],
+        assumptions=["types enumerated: int, uint, float, int2, float2, float3, float4, float3x3, float4x4, int[3], one struct -- all ordered pairs (declared type T, value type V), each in "
+                     "three contexts {assignment, initialiser, return} x {plain, optimize}; the variable is then used the way its declared type allows (scalar + 1, vector + vector, "
+                     "matrix * scalar, array element, struct member); one sample input per value type (shapes do not depend on the numbers)"])
+def c05_shape_compat(R):
+    """(declared type T, value type V): a program that lets a V reach a T -- by assignment, as initialiser or as returned value -- and then uses
+    the T as a T is rejected at compile time, or runs without an internal error and yields a value of T's shape.  (Where V's shape is T's shape
+    -- two scalars; two vectors of one size; two matrices of one shape; the same array or struct type -- it must be accepted.)"""
+    import copy
+    from nsl import LinearIR, VM
+    for tname, (tshape, _tv) in _SHAPE_TYPES.items():
+        use = _SHAPE_USE[tshape[0]]
+        ctxs = {
+            "assignment": "export function f({V} v) -> {T} {{ {T} t; t = v; " + use + " }}",
+            "initialiser": "export function f({V} v) -> {T} {{ {T} t = v; " + use + " }}",
+            "return": "function g({V} v) -> {T} {{ return v; }}\nexport function f({V} v) -> {T} {{ {T} t = g(v); " + use + " }}",
+        }
+        for vname, (vshape, sample) in _SHAPE_TYPES.items():
+            compatible = tshape == vshape
+            bad = []
+            for cname, tmpl in ctxs.items():
+                src = ("struct S { int a; }\n" if "S" in (tname, vname) else "") + tmpl.format(V=vname, T=tname)
+                for opt in (False, True):
+                    r, exc = compile_quiet(src, {"optimize": opt})
+                    if r is None:
+                        if compatible:
+                            bad.append((cname, opt, src, f"rejected ({type(exc).__name__}: {str(exc)[:80]}) although a {vname} converts to a {tname}"))
+                        continue
+                    try:
+                        lk = LinearIR.Linker()
+                        lk.AddModule(r.IRModule)
+                        got = VM.VirtualMachine(lk.Link()).Invoke("f", v=copy.deepcopy(sample))
+                        if not _has_shape(got, tshape):
+                            bad.append((cname, opt, src, f"accepted; f({sample!r}) returned {got!r}, which is not a {tname}"))
+                    except BaseException as e:
+                        if isinstance(e, KeyboardInterrupt):
+                            raise
+                        bad.append((cname, opt, src, f"accepted; f({sample!r}) raised {type(e).__name__}: {str(e)[:100]}"))
+            det = "" if not bad else f"{len(bad)} of 6 (context, optimisation) variants fail; first ({bad[0][0]}, {'opt' if bad[0][1] else 'plain'}): {bad[0][3]}\n{bad[0][2]}"
+            R.check(f"C05.shape-compat[{tname} <- {vname}]", "nsl.passes.ComputeTypes::ComputeTypeVisitor._ProcessExpression", not bad, detail=det,
+                    replay=None if not bad else script("""
+                        import io, contextlib
+                        from nsl import Compiler, LinearIR, VM
+                        src, opt, compatible, sample = {{src}}, {{opt}}, {{compatible}}, {{sample}}
+                        try:
+                            with contextlib.redirect_stdout(io.StringIO()):
+                                r = Compiler.Compiler().Compile(src, {'optimize': opt})
+                        except BaseException as e:
+                            r = None; print('rejected:', type(e).__name__, str(e)[:100])
+                        print(src)
+                        if r is None:
+                            if compatible: print('REPLAY-CONFIRMED')
+                        else:
+                            lk = LinearIR.Linker(); lk.AddModule(r.IRModule)
+                            try:
+                                got = VM.VirtualMachine(lk.Link()).Invoke('f', v=sample)
+                                print('accepted; f(%r) =' % (sample,), got, ' -- expected: a value of the declared result type')
+                                want = {{want}}
+                                shape = (lambda x: [shape(y) for y in x] if isinstance(x, list) else (sorted(x) if isinstance(x, dict) else 0))
+                                if shape(got) != shape(want): print('REPLAY-CONFIRMED')
+                            except Exception as e:
+                                print('accepted; raised', type(e).__name__, e); print('REPLAY-CONFIRMED')
+                        """, src=bad[0][2], opt=bad[0][1], compatible=compatible, sample=sample, want=_SHAPE_TYPES[tname][1]))
